@@ -272,6 +272,7 @@ def explore_schedules(cb, env, y, acc=None):
     dag = DAGCode({"main": phase}, "main")
     interp = NumpyInterpreter(dag, c01.FUNCS)
     ctx = interp.context
+    stores = prog.VarStores(interp)
     rename = {v: k for k, v in env.items()}
     ids = [s.id for s in stmts]
     deps = {s.id: frozenset(s.depends_on) for s in stmts}
@@ -283,21 +284,19 @@ def explore_schedules(cb, env, y, acc=None):
     counters = {"states": 0, "transitions": 0, "capped": False, "branching": False}
 
     def snap():
-        return {k: (v.copy() if hasattr(v, "copy") else v) for k, v in ctx.items()}
+        return stores.snap()
 
     def restore(s):
-        ctx.clear()
-        for k, v in s.items():
-            ctx[k] = v.copy() if hasattr(v, "copy") else v
+        stores.restore(s)
 
     def final(kind, arg, events, sched):
-        store = {k: v for k, v in ctx.items() if k not in flag_names}
+        store = {k: v for k, v in stores.merged().items() if k not in flag_names}
         o = outcome(kind, arg, events, store, rename)
         if o not in outcomes:
             outcomes[o] = list(sched)
 
     def rec(executed, state, events, sched):
-        key = (executed, json.dumps({k: canon(v) for k, v in sorted(state.items())}, sort_keys=True),
+        key = (executed, json.dumps([{k: canon(v) for k, v in sorted(m.items())} for m in state], sort_keys=True),
                json.dumps(events))
         if key in seen:
             return
